@@ -27,7 +27,7 @@ BUSES = {"low_rom": (0x01, 0x8000, 0x10000), "high_rom": (0x41, 0x0000, 0x10000)
 
 def bound(tier):
     r = 400 if tier == "thorough" else 160
-    return f"7 supported + 2 unsupported branch mnemonics x d in [-{r},{r}] x 3 forms x 4 placements x 3 origins/relocations x 2 buses + RAM-space families + same source alternately under both mappings in one process + far same-bank targets, LoROM branches across a bank end, branches after an .incbin of 16..4096 bytes, forward branches to a label shadowing an outer one"
+    return f"7 supported + 2 unsupported branch mnemonics x d in [-{r},{r}] x 3 forms x 4 placements x 3 origins/relocations x 2 buses + RAM-space families + same source alternately under both mappings in one process + the .b suffix + far same-bank targets, LoROM branches across a bank end, branches after an .incbin of 16..4096 bytes, forward branches to a label shadowing an outer one"
 
 
 def cases(tier, seed):
@@ -147,6 +147,14 @@ def run_rom(busname, mn, form, place, reloc, r):
         edge = min(abs(d - 127), abs(d + 128)) <= 4
         if edge:
             nt += 1
+        if mn in SUPPORTED and place == "middle" and reloc == "none" and (edge or d % 16 == 0):
+            # the explicit one-byte size (bne.b): same encoding, same range
+            srcb = src.replace(f"{mn} ", f"{mn}.b ", 1)
+            outb = impl.assemble(srcb, rom=busname)
+            n += 1
+            if (exp is None and outb.accepted) or (exp is not None and (not outb.accepted or outb.blocks != exp)):
+                viol.append({"key": f"branch:byte-suffix-changes-the-result:{form}", "msg": f"{busname} d={d}: `{mn}.b` gives {outb.brief()[-80:]}, `{mn}` gives {out.brief()[-80:]} :: {srcb[:120]!r}"})
+                outcomes.add("SUFFIX-DIFFERS")
         if exp is None:
             if out.accepted:
                 if mn in UNSUPPORTED and -128 <= d <= 127:
